@@ -129,6 +129,7 @@ class C01(Check):
 
     def cases(self, tier, layer):
         if layer == 'e1-a':
+            yield {'mode': 'e1', 'frame': {'cols': []}}   # no columns at all
             for fr in self._singles(tier, ['a']):
                 yield {'mode': 'e1', 'frame': fr}
         elif layer == 'e1-bc':
@@ -213,8 +214,8 @@ class C01(Check):
                 k += '(cat)'
             if k not in ks:
                 ks.append(k)
-        rows = '0' if not cols[0]['v'] else '>0'
-        return 'type=%s:rows=%s' % ('+'.join(ks), rows)
+        rows = '0' if not cols or not cols[0]['v'] else '>0'
+        return 'type=%s:rows=%s' % ('+'.join(ks) or 'none', rows)
 
     def discover(self, R, frame, df, rex, sub):
         """-> (constraints object, dict) or (None, None) after reporting."""
@@ -235,6 +236,11 @@ class C01(Check):
                     'snippet': FA.snippet(frame) + '\nfrom tdda.constraints '
                     'import discover_df\ndiscover_df(df, inc_rex=%r)' % rex},
                    sub)
+            return None, None
+        if c is None and not frame['cols']:
+            # a frame without any (recognised) column: None is the documented
+            # answer ("None - if no constraints were found")
+            R.out('discover-none:no-columns')
             return None, None
         if c is None:
             R.out('discover-none')
